@@ -125,7 +125,7 @@ class SchemaGen:
             choices += ["array", "map", "record", "record"] * 2
             if not in_union:
                 choices += ["union"] * 3
-        choices = [c for c in choices if self.kind_of_choice(c) not in exclude_kinds]
+        choices = [c for c in choices if self.kind_of_choice(c) not in exclude_kinds and not (c == "duration" and "duration" in exclude_kinds)]
         c = rng.choice(choices)
         k = self.reserve()
         if c in PRIMS:
